@@ -19,10 +19,11 @@ Every mutant is
   1. parsed with ethernet(raw=m)                                              phase "parse"
   2. walked along .next to the end (link counter)                              phase "walk"
   3. printed: str() of every header of the chain, then dump() of the top       phases "str", "dump"
-  4. re-serialised with pack() (and dump() once more on the packed object)     phase "pack" ("dump")
+  4. re-serialised with pack() (and dump() once more on the packed object),    phases "pack" ("dump"),
+     then len() of every header of the chain (packs from that header down)     "len"
   5. wrapped in an ofp_packet_in (built, packed and unpacked with libopenflow_01; phase "packetin"), handed to
      a pox.openflow.PacketIn event whose .parsed is read the way a handler does; that result is walked,
-     printed and packed in the same way, under the same phase names (one defect, one key)
+     printed (str, dump) and packed in the same way, under the same phase names (one defect, one key)
 Every phase runs under a step budget: backward jumps (loop iterations) executed inside the POX tree, counted
 with sys.monitoring (JumpBudget below; C15_GUARD=line switches to mc.engine.LineBudget on pox/lib/packet/*.py,
 6x slower, same verdicts).  A raising site is reported under the first phase of the case that reaches it
@@ -47,6 +48,7 @@ import os, struct, sys
 from mc.engine import pmap, LineBudget
 from mc.report import Report, digest
 from mc.refs.pktcorpus import corpus, CORPUS_PATHS
+from mc.refs import pktcorpus as K
 from mc.refs import rfc1071 as R
 
 PID = "C15"
@@ -54,6 +56,7 @@ MAX_CHAIN = 32             # links; the deepest valid corpus chain has 7
 JUMP_BUDGET = 20000        # backward jumps (loop iterations) inside the POX tree per phase
 LINE_BUDGET = 200000       # C15_GUARD=line: `line` events in pox/lib/packet per phase
 FIRST = 64                 # thorough: all 255 alternatives for the first FIRST bytes
+PAIR_MAX_LEN = 400         # thorough, truncation x corrupted byte: frames up to this length
 PAIR_VALUES = 3            # thorough, truncation x corrupted byte: the first 3 of the boundary values (0x00, 0xff, b^0x01)
 SLICES_Q, SLICES_T = 2, 24 # work items per (family, frame)
 
@@ -64,6 +67,31 @@ PKT_FILES = ("arp.py dhcp.py dns.py eap.py eapol.py ethernet.py gre.py icmp.py i
 # ---------------------------------------------------------------------------------------------
 # enumeration
 # ---------------------------------------------------------------------------------------------
+
+_FRAMES = None
+PATHS = {}
+
+def frames ():
+  """The shared corpus of valid frames plus frames that are valid only in a dialect POX itself speaks.
+  IGMPv3: pox.lib.packet.igmp.GroupRecord reads and writes the 16-bit source count of a group record in HOST byte
+  order, so on a little-endian host the RFC-conformant multi-record reports of the corpus stop at the first record
+  ("512 sources").  The *_hostorder variants carry the same records with the count in little-endian order, which
+  is what such a POX emits and fully parses; whichever byte order the library implements, one of the two sets
+  reaches the code behind the first group record."""
+  global _FRAMES
+  if _FRAMES is None:
+    C = dict(corpus())
+    PATHS.update(CORPUS_PATHS)
+    for n in (2, 3):
+      body = struct.pack("!HH", 0, n) + b''.join(K.igmp_v3_records(n, fmt="<BBH"))
+      name = "igmp_v3_report_%drec_hostorder" % n
+      assert name not in C
+      C[name] = K.r_eth(K.r_ipv4(K.r_igmp(b'\x22\x00', body), 2, dst=K.ip4("224.0.0.22"), ttl=1, tos=0xc0,
+                                 options=b'\x94\x04\x00\x00'), 0x0800)
+      PATHS[name] = "ethernet/ipv4/igmp(v3 report, %d group records, source counts in little-endian order)" % n
+    _FRAMES = C
+  return _FRAMES
+
 
 def small_values (b):
   """Replacement values for a byte whose valid value is b (ordered, distinct, never b itself)."""
@@ -94,6 +122,7 @@ def cases (family, frame):
         if v != frame[p] and v not in sv:     # the small set is already in family "byte"
           yield (n, p, v)
   elif family == "pair":
+    if n > PAIR_MAX_LEN: return             # quadratic; the longest frames get the linear families only
     for L in range(1, n):
       for p in range(L):
         for v in small_values(frame[p])[:PAIR_VALUES]:
@@ -231,58 +260,72 @@ class SiteBudget (LineBudget):
     return self._local
 
 
+_J_IN = set()              # source files inside the POX tree
+_J_OUT = set()             # ... and outside
+_J_COUNT = 0               # backward jumps inside the POX tree since the active budget was armed
+_J_LIMIT = 1 << 62         # budget of the active JumpBudget (huge while none is armed)
+_J_ACTIVE = None
+
+def _on_jump (code, offset, dest):
+  """sys.monitoring JUMP callback; the common path is a set lookup, a compare and an increment."""
+  global _J_COUNT
+  fn = code.co_filename
+  if fn not in _J_IN:
+    if fn not in _J_OUT:
+      (_J_IN if os.path.realpath(fn).startswith(JumpBudget.root) else _J_OUT).add(fn)
+    if fn in _J_OUT:
+      return sys.monitoring.DISABLE          # this location can never count; stop reporting it
+  if dest > offset:
+    return sys.monitoring.DISABLE            # forward jump: likewise
+  _J_COUNT += 1
+  if _J_COUNT > _J_LIMIT:
+    self = _J_ACTIVE
+    if self is not None: self._over(code)
+
+
 class JumpBudget (object):
   """Step counter: counts BACKWARD jumps (loop iterations; sys.monitoring JUMP events) executed by code of the
   POX tree and aborts the phase when the budget is exceeded.  Every non-terminating execution of pure Python code
   either takes backward jumps for ever or recurses until RecursionError, so this decides termination like the
-  line budget does, at a few percent overhead.  The flag is latched and the exception (a BaseException) raised
-  again at every further backward jump, because POX's bare `except:` clauses may swallow it."""
+  line budget does, at a fraction of its cost.  Once the budget is exceeded the next budget/4 jumps are attributed
+  to their functions (to name the spinning loop), then the flag is latched and the exception (a BaseException)
+  raised, again at every further backward jump, because POX's bare `except:` clauses may swallow it."""
   TOOL = 3
-  active = None
   installed = False
   root = None
-  known = {}
 
   def __init__ (self, root, budget):
     self.budget = budget
     self.count = 0
     self.tripped = False
     self.where = None
+    self.per = {}
     if not JumpBudget.installed:
       mon = sys.monitoring
       JumpBudget.root = root
       if mon.get_tool(JumpBudget.TOOL) is None:
         mon.use_tool_id(JumpBudget.TOOL, "c15-jump-budget")
-      mon.register_callback(JumpBudget.TOOL, mon.events.JUMP, JumpBudget._on_jump)
+      mon.register_callback(JumpBudget.TOOL, mon.events.JUMP, _on_jump)
       mon.set_events(JumpBudget.TOOL, mon.events.JUMP)
       JumpBudget.installed = True
 
-  @staticmethod
-  def _on_jump (code, offset, dest):
-    fn = code.co_filename
-    inside = JumpBudget.known.get(fn)
-    if inside is None:
-      inside = JumpBudget.known[fn] = os.path.realpath(fn).startswith(JumpBudget.root)
-    if not inside or dest > offset:
-      return sys.monitoring.DISABLE          # this location can never count; stop reporting it
-    self = JumpBudget.active
-    if self is None: return None
-    self.count += 1
-    per = self.per
-    per[code] = per.get(code, 0) + 1
-    if self.count > self.budget:
-      if not self.tripped:
-        self.tripped = True
-        self.where = self._spinning(code)
-      raise LineBudget.BudgetExceeded()
+  def _over (self, code):
+    if not self.tripped:
+      window = max(64, self.budget // 4)
+      if _J_COUNT <= self.budget + window:
+        self.per[code] = self.per.get(code, 0) + 1
+        return
+      self.tripped = True
+      self.where = self._spinning(window)
+    raise LineBudget.BudgetExceeded()
 
-  def _spinning (self, code):
+  def _spinning (self, window):
     """Name the loop that does not end: the OUTERMOST function on the stack that took a sizeable share of the
-    backward jumps (the owner of a non-terminating loop is on the stack for as long as it spins; functions it
-    calls may loop too, so the innermost frame would make the key depend on where the budget happened to run
-    out).  Falls back to the function with most backward jumps."""
-    share = self.budget // 8
-    f = sys._getframe(2); stack = []
+    backward jumps of the attribution window (the owner of a non-terminating loop is on the stack for as long as
+    it spins; functions it calls may loop too, so the innermost frame would make the key depend on where the
+    budget happened to run out).  Falls back to the function with most backward jumps."""
+    share = window // 8
+    f = sys._getframe(3); stack = []
     while f is not None:
       stack.append(f.f_code); f = f.f_back
     hot = None
@@ -294,12 +337,15 @@ class JumpBudget (object):
     return "%s:%s" % (os.path.basename(hot.co_filename), getattr(hot, "co_qualname", hot.co_name))
 
   def __enter__ (self):
-    self.count = 0; self.tripped = False; self.where = None; self.per = {}
-    JumpBudget.active = self
+    global _J_COUNT, _J_LIMIT, _J_ACTIVE
+    self.tripped = False; self.where = None; self.per = {}
+    _J_COUNT = 0; _J_LIMIT = self.budget; _J_ACTIVE = self
     return self
 
   def __exit__ (self, t, v, tb):
-    JumpBudget.active = None
+    global _J_LIMIT, _J_ACTIVE
+    self.count = _J_COUNT
+    _J_LIMIT = 1 << 62; _J_ACTIVE = None
     return t is LineBudget.BudgetExceeded
 
 
@@ -403,8 +449,9 @@ class Case (object):
     if chain and getattr(chain[0], "raw", MISSING) != data:
       self.fail("unparsed-raw:ethernet:top-raw-differs", "%s: ethernet.raw is not the offered frame" % tag)
 
-  def render (self, top, chain):
-    """str() of every header, dump(), pack(), dump() again."""
+  def render (self, top, chain, full=True):
+    """str() of every header, dump(), pack(); with full also pack() of unparsed headers, dump() again and len()
+    of every header (the PacketIn route runs the same library code on an equal object, so it gets the short form)."""
     okall = True
     for h in chain:
       ok, s = self.guarded("str", str, h)
@@ -418,7 +465,7 @@ class Case (object):
         self.fail("type:dump:%s:%s" % (type(top).__name__, type(d).__name__), "dump() returned a %s" % type(d).__name__)
       elif self.text is None: self.text = d
     # pack() of an unparsed header without payload must hand back what it was given
-    for h in chain:
+    for h in (chain if full else ()):
       if (getattr(h, "parsed", MISSING) is False and getattr(h, "next", MISSING) is None
           and isinstance(getattr(h, "raw", MISSING), bytes)):
         raw = h.raw
@@ -435,7 +482,13 @@ class Case (object):
         self.fail("type:pack:%s:%s" % (type(top).__name__, type(b).__name__), "pack() returned a %s" % type(b).__name__)
       else:
         same = (b == self.data)
-      ok, d = self.guarded("dump", top.dump)
+      if full:
+        ok, d = self.guarded("dump", top.dump)
+        okall &= ok
+    # len() of every header: the packed length of that header and everything under it (packet_base.__len__
+    # packs; a handler that forwards or re-encapsulates an inner header packs from there)
+    for h in (chain if full else ()):
+      ok, n = self.guarded("len", len, h)
       okall &= ok
     return okall, same
 
@@ -465,7 +518,7 @@ class Case (object):
         if shape is not None and shape2 != shape:
           self.fail("packetin:chain-differs", "PacketIn.parsed gives %r, ethernet(raw=) gives %r" % (shape2, shape))
         self.check_unparsed(chain2, term2, "packetin")
-        okall2, same2 = self.render(top2, chain2)
+        okall2, same2 = self.render(top2, chain2, full=False)
         self.sig.append(("pi", okall2, same2))
     # one finding per key and case
     seen = set(); out = []
@@ -518,7 +571,7 @@ def order_key (replay):
 def _worker (item):
   family, name, i, n = item
   P = pox_namespace()
-  frame = corpus()[name]
+  frame = frames()[name]
   rep = Report(PID, "exploration")
   best = {}
   maxlines = 0
@@ -543,7 +596,7 @@ def _worker (item):
           if ok < cur[0]: cur[0], cur[1], cur[2] = ok, what, replay
     elif family == "valid" or (family == "trunc" and L == len(frame) // 2) or (family == "byte" and p == 12 and j % 5 == 0):
       if len(rep.samples) < 2:
-        rep.sample(dict(case=describe(name, family, L, p, v, frame), path=CORPUS_PATHS.get(name),
+        rep.sample(dict(case=describe(name, family, L, p, v, frame), path=PATHS.get(name),
                         chain=jsonable_shape(c.sig), dump=c.text))
   rep.extra["_best"] = best
   rep.extra["_maxlines"] = maxlines
@@ -555,7 +608,7 @@ def jsonable_shape (sig):
 
 
 def work_items (cfg):
-  C = corpus()
+  C = frames()
   names = sorted(C)
   if cfg.only:
     names = [x for x in names if cfg.only in x] or names
@@ -575,7 +628,7 @@ def work_items (cfg):
 
 def run (cfg):
   P = pox_namespace()
-  C = corpus()
+  C = frames()
   rep = Report(PID, "exploration")
   fams = families(cfg)
   rep.rule = ("for each of the %d valid corpus frames (%d bytes in total; mc/refs/pktcorpus.py, one or more per parser "
